@@ -68,7 +68,11 @@ func H_C15_struct() {
 	nd.Assert(id+".frame", nd.And(post.TotalTokens.Equal(asset.TotalTokens), post.TotalValidatorShares.Equal(asset.TotalValidatorShares),
 		moduleBal(e, Denoms[0]).Equal(preCust), bal(e, 0, 0).Equal(preBal)))
 	nd.Assert(id+".dst", valShares(e, 1, Denoms[0]).Equal(preVS1.Add(moved)))
-	nd.Assert(id+".src", valShares(e, 0, Denoms[0]).Equal(preVS0.Sub(moved)))
+	// the source loses the moved shares; a remainder worth zero tokens is dust and is cleared
+	rest := preVS0.Sub(moved)
+	dust := types.ConvertNewShareToDecToken(math.LegacyNewDecFromInt(asset.TotalTokens), asset.TotalValidatorShares, rest).IsZero()
+	src := valShares(e, 0, Denoms[0])
+	nd.Assert(id+".src", nd.Or(src.Equal(rest), nd.And(dust, src.IsZero())))
 	nd.Assert(id+".entry", nd.And(hasRedelRecord(e, 0, 0, 1, c), hasRedelIndex(e, 0, c, 0, 1, 0)))
 	q, found := redelQueue(e, c)
 	nd.Assert(id+".queue", found && len(q.Entries) == 1 && q.Entries[0].Balance.Amount.Equal(amt) &&
